@@ -34,6 +34,8 @@ pub fn info(id: &str) -> Option<PropInfo> {
         "C14" => ("fault_enumeration", "per generated stream: chunked / 1-byte / interrupted readers and fail@k for every k in [0,len); oracle: same value / Err(ReadError), no panic, no foreign free. Non-trivial = failure inside the value part or fragmented read of a stream with a sequence."),
         "C15" => ("exploration", "every tag site of every generated stream x every foreign tag value (all bytes / boundary usize values), both modes; every variant round-trips. Non-trivial = foreign tag injection (distinct by subject, value, site, tag)."),
         "C18" => ("exploration", "schema recording vs plain bytes; row invariants (pre-order, containment, leaf tiling, zero padding, aligned blocks); to_csv/debug. Non-trivial = schema with a composite having >= 2 children and a padding row."),
+        "C16" => ("exploration", "every subject of the form Vec<E> (zero-copy and deep E) x generated item sequences incl. empty: streams of &[E], SerIter (zero-copy E), and both nested in one- and two-parameter generic structs compared byte-for-byte (same source memory) with the vector's stream, header included; slice stream deserialized as the vector in both modes; lying iterators for all (announced, actual) in 0..8 x {standalone, nested}; writer faults with borrowed sources (no foreign free). Non-trivial = non-empty sequence, or announced != actual."),
+        "C19" => ("exploration", "operation histories vec(op, 0..60) over {write, write_all, flush, read, seek start/current/end, set_position, position, len, as_bytes} x 8 alignment types x optional initial capacity, plus long histories (500-1500 ops); differential against std::io::Cursor<Vec<u8>> after every step (result/ErrorKind, position, length, contents, storage alignment). Non-trivial = history containing a non-empty write that begins beyond the current length; distinct by (alignment, history, capacity)."),
         _ => return None,
     };
     Some(PropInfo { id: Box::leak(id.to_string().into_boxed_str()), level, rule, assumptions: COMMON_ASSUMPTIONS })
@@ -61,6 +63,9 @@ fn matches_known(f: &Value, known: &[Value], prop: &str) -> Option<String> {
 }
 
 pub fn universes_for(opts: &Opts) -> Vec<String> {
+    if opts.prop == "C19" {
+        return vec!["fixed".to_string()];
+    }
     let mut v = vec!["fixed".to_string(), format!("s{}", opts.seed)];
     if opts.tier == "thorough" {
         for k in 1..8 {
@@ -78,7 +83,7 @@ pub fn run(opts: &Opts) -> i32 {
     };
     let labels = if let Some(r) = &opts.replay {
         let rj = crate::read_json(&r.to_string_lossy()).unwrap_or(Value::Null);
-        vec![rj["universe"].as_str().unwrap_or("fixed").to_string()]
+        vec![rj["universe"].as_str().filter(|u| *u != "-").unwrap_or("fixed").to_string()]
     } else {
         universes_for(opts)
     };
